@@ -5,6 +5,8 @@ import Cuke.Driver.Pipe
 import Cuke.Driver.Mon
 import Cuke.Driver.Attempt
 import Cuke.Driver.Sched
+import Cuke.Driver.Outline
+import Cuke.Driver.Norm
 /-! `cuke-driver`: one request per line on stdin, one response per line on stdout. -/
 open Cuke Cuke.Wire Cuke.Driver
 
@@ -22,6 +24,9 @@ def dispatch (line : String) : String :=
       | "attempt.run" => handleAttemptRun args
       | "mon.c09" => handleMonC09 args
       | "sched.run" => handleSchedRun args
+      | "outline.expand" => handleOutlineExpand args
+      | "norm.run" => handleNormRun args
+      | "mon.c11" => handleMonC11 args
       | "mon.c10" => handleMonC10 args
       | "harness.ended" => some "ok"
       | "mon.c01" => handleMonC01 args
